@@ -14,7 +14,7 @@ SEV_HANDLER(lde)
     unsigned m = (unsigned)c.at("rows").i, n = (unsigned)c.at("cols").i;
     vec_basic v;
     for (auto &x : c.at("a").a)
-        v.push_back(integer(x.i));
+        v.push_back(integer((long)x.i));
     DenseMatrix A(m, n, v);
     J basis = J::arr();
     r.set("bexc", guarded([&] {
